@@ -434,6 +434,7 @@ pub fn decode_sd(data: &[u8], with_fault: bool) -> SdCase {
         sluggish: false,
         busy_stop_write: 0,
         stop_gap: false,
+        sticky_status: false,
     };
     let mut timing = timing;
     let use_crc = d.bool();
@@ -505,6 +506,7 @@ pub fn decode_sd(data: &[u8], with_fault: bool) -> SdCase {
     if !with_fault {
         timing.busy_stop_write = d.pick(&[0u16, 0, 3, 59, 12_000, 40_000]);
         timing.stop_gap = d.bool();
+        timing.sticky_status = d.bool();
     }
     let bg_seed = match d.u8() % 8 {
         1 => 0,
